@@ -202,6 +202,14 @@ func kindsReachUpdate(out *scenOut) {
 		tea.BatchMsg{noop}, // NOT passed to Update
 		tea.ClearScreen(),
 		userMsg{4, 2},
+		// the same message again: a message is delivered however often it is sent, whatever came before it
+		tea.FocusMsg{}, tea.FocusMsg{}, userMsg{4, 4}, tea.FocusMsg{}, tea.BlurMsg{}, tea.BlurMsg{},
+		tea.WindowSizeMsg{Width: 80, Height: 24}, tea.WindowSizeMsg{Width: 80, Height: 24},
+		tea.KeyMsg{Type: tea.KeyRunes, Runes: []rune{'x'}}, tea.KeyMsg{Type: tea.KeyRunes, Runes: []rune{'x'}},
+		tea.MouseMsg{X: 1, Y: 2}, tea.MouseMsg{X: 1, Y: 2},
+		tea.HideCursor(), tea.HideCursor(), tea.ClearScreen(), tea.ClearScreen(),
+		tea.EnableReportFocus(), tea.EnableReportFocus(), tea.DisableReportFocus(), tea.FocusMsg{}, tea.FocusMsg{},
+		userMsg{4, 2}, userMsg{4, 2},
 	}
 	run := startProgram(ctl, nil, tea.WithInput(nil), tea.WithoutSignalHandler())
 	var want []string
